@@ -17,6 +17,7 @@ type dstate struct {
 	pkg                                   *ssa.Package
 	mutators                              []*mutator // implementations of the mutating State methods
 	queries                               []*ssa.Function
+	queryIface                            map[*ssa.Function]string // query implementation -> the State interface it implements
 	queueBroadcast                        *types.Func
 	marshal                               []*types.Func
 	upsert, insert                        *types.Func // trie writes
@@ -77,6 +78,10 @@ func (c *Ctx) dstate(ru *report.Rule) *dstate {
 			continue
 		}
 		d.queries = append(d.queries, impl)
+		if d.queryIface == nil {
+			d.queryIface = map[*ssa.Function]string{}
+		}
+		d.queryIface[impl] = q.iface
 	}
 	d.queueBroadcast = c.cm(ru, pkgMemberlist, "TransmitLimitedQueue", "QueueBroadcast")
 	for _, p := range []string{"github.com/golang/protobuf/proto", "github.com/gogo/protobuf/proto"} {
